@@ -166,10 +166,10 @@ def ops_for(ty):
     # ---- elementary functions (C11 / C15): spec = none here (oracle tables are checked elsewhere)
     if ty == 'p16':
         for o in ('exp', 'exp2', 'ln', 'log2', 'sin_pi', 'cos_pi', 'tan_pi', 'asin_pi', 'acos_pi', 'atan_pi'):
-            add(o, 'P', 'P', f'x.{o}()', f'crate.p16e1.math.{o}.P16E1.{o} x', None, 'C11')
+            add(o, 'P', 'P', f'x.{o}()', f'crate.p16e1.math.{o}.P16E1.{o} x', f'some (Spec.Tables.p16_{o}[a]!)', 'C11')
     if ty == 'p8':
         for o in ('exp', 'ln'):
-            add(o, 'P', 'P', f'x.{o}()', f'crate.p8e0.math.{o}.P8E0.{o} x', None, 'C11')
+            add(o, 'P', 'P', f'x.{o}()', f'crate.p8e0.math.{o}.P8E0.{o} x', f'some (Spec.Tables.p8_{o}[a]!)', 'C11')
     if ty == 'p32':
         for o in ('sin', 'cos', 'tan', 'asin', 'acos', 'atan', 'ln', 'log2', 'exp', 'exp2', 'sinh', 'cosh', 'cbrt'):
             add(o, 'P', 'P', f'x.{o}()', f'crate.p32e2.math.sleef.{o} x', None, 'C15')
